@@ -443,9 +443,9 @@ func init() {
 }
 
 func init() {
-	mutant("phantom-field-server", "no-phantom-field", "serverConn.go", "		if len(b) == 0 && hf.Empty() {\n			// The fragment ended in a dynamic table size update, which\n			// consumes input without producing a field: there is nothing to\n			// validate or to hand to the request yet.\n			break\n		}\n", "")
-	mutant("phantom-guard-drops-last-field", "no-phantom-field", "serverConn.go", "		if len(b) == 0 && hf.Empty() {\n			// The fragment ended in a dynamic table size update, which\n			// consumes input without producing a field: there", "		if len(b) == 0 || hf.Empty() {\n			// The fragment ended in a dynamic table size update, which\n			// consumes input without producing a field: there")
-	mutant("phantom-field-client", "no-phantom-field", "conn.go", "		if len(b) == 0 && hf.Empty() {\n			// The fragment ended in a dynamic table size update, which\n			// consumes input without producing a field, or in the middle of\n			// a field that the next frame completes.\n			break\n		}\n", "")
+	mutant("phantom-field-server", "no-phantom-field", "serverConn.go", "		if !sc.dec.fieldDecoded {\n			// The fragment ended in a dynamic table size update, which\n			// consumes input without producing a field: there is nothing to\n			// validate or to hand to the request yet.\n			break\n		}\n", "")
+	mutant("phantom-guard-drops-last-field", "no-phantom-field", "serverConn.go", "		if !sc.dec.fieldDecoded {\n			// The fragment ended in a dynamic table size update, which\n			// consumes input without producing a field: there", "		if !sc.dec.fieldDecoded || len(b) == 0 {\n			// The fragment ended in a dynamic table size update, which\n			// consumes input without producing a field: there")
+	mutant("phantom-field-client", "no-phantom-field", "conn.go", "		if !c.dec.fieldDecoded {\n			// The fragment ended in a dynamic table size update, which\n			// consumes input without producing a field, or in the middle of\n			// a field that the next frame completes.\n			break\n		}\n", "")
 }
 
 func init() {
@@ -479,7 +479,7 @@ func init() {
 
 func init() {
 	mutant("client-table-record-starts-at-zero", "settings-applied", "conn.go", "	nc.encTableSize = defaultHeaderTableSize\n	nc.encTableSizeSeen = defaultHeaderTableSize\n", "")
-	mutant("client-handshake-marker-without-encoder", "settings-applied", "conn.go", "				c.enc.SetMaxTableSize(st.HeaderTableSize())\n				c.encTableSize = st.HeaderTableSize()\n				c.encTableSizeSeen = st.HeaderTableSize()", "				c.encTableSize = st.HeaderTableSize()\n				c.encTableSizeSeen = st.HeaderTableSize()")
+	mutant("client-handshake-marker-without-encoder", "settings-applied", "conn.go", "			c.enc.SetMaxTableSize(size)\n			c.encTableSize = size\n			c.encTableSizeSeen = size", "			c.encTableSize = size\n			c.encTableSizeSeen = size")
 	mutant("cutpadding-pad-equals-length", "padding-shape", "http2utils/utils.go", "	if len(payload) < length-pad-1 || length-pad < 1 {", "	if len(payload) < length-pad-1 || pad > length {")
 }
 
@@ -601,7 +601,7 @@ func init() {
 	mutant("drain-loop-forgets-to-count", "block-remainder-decoded", "serverConn.go", "			break\n		}\n\n		fields++\n	}\n\n	return nil, fields, nil", "			break\n		}\n	}\n\n	return nil, fields, nil")
 	mutant("drain-loop-carries-on-the-last-fragment", "block-remainder-decoded", "serverConn.go", "			if errors.Is(err, ErrUnexpectedSize) && !last {\n				return pb, fields, nil", "			if errors.Is(err, ErrUnexpectedSize) {\n				return pb, fields, nil")
 	mutant("drain-loop-decode-error-is-a-stream-error", "block-remainder-decoded", "serverConn.go", "			return nil, fields, NewGoAwayError(CompressionError, err.Error())", "			return nil, fields, NewResetStreamError(CompressionError, err.Error())")
-	mutant("drain-loop-stops-at-any-empty-field", "block-remainder-decoded", "serverConn.go", "		if len(b) == 0 && hf.Empty() {\n			// Ended in a dynamic table size update: no field.", "		if hf.Empty() {\n			// Ended in a dynamic table size update: no field.")
+	mutant("drain-loop-stops-at-any-empty-field", "block-remainder-decoded", "serverConn.go", "		if !sc.dec.fieldDecoded {\n			// Ended in a dynamic table size update: no field.", "		if hf.Empty() {\n			// Ended in a dynamic table size update: no field.")
 	mutant("drain-loop-always-at-block-start", "block-remainder-decoded", "serverConn.go", "		b, err = sc.dec.nextField(hf, fields == 0, fields, b)", "		b, err = sc.dec.nextField(hf, true, fields, b)")
 	mutant("rejected-field-not-counted", "block-remainder-decoded", "serverConn.go", "	return sc.rejectBlockFrom(strm, fr, b, strm.blockFields+1, reason)", "	return sc.rejectBlockFrom(strm, fr, b, strm.blockFields, reason)")
 	mutant("rejection-drops-the-cut-field", "block-remainder-decoded", "serverConn.go", "	strm.previousHeaderBytes = append(strm.previousHeaderBytes[:0], carry...)\n	strm.blockFields = fields\n", "	strm.blockFields = fields\n")
@@ -639,7 +639,7 @@ func init() {
 	mutant("client-cut-field-on-the-last-frame-waits", "client-block-state", "conn.go", "		if errors.Is(err, ErrUnexpectedSize) && !fr.Flags().Has(FlagEndHeaders) {\n			c.block.carry = append(c.block.carry, pb...)", "		if errors.Is(err, ErrUnexpectedSize) {\n			c.block.carry = append(c.block.carry, pb...)")
 	mutant("client-half-decoded-field-is-judged", "client-block-state", "conn.go", "			// Whatever part of the field was decoded is not a field.\n			hf.Reset()\n", "")
 	mutant("client-decode-error-fails-one-request", "client-block-state", "conn.go", "		// The dynamic table cannot be trusted from here on.\n		return nil, NewGoAwayError(CompressionError, err.Error())", "		// The dynamic table cannot be trusted from here on.\n		return nil, err")
-	mutant("client-skip-loop-forgets-to-count", "client-block-state", "conn.go", "		if len(b) == 0 && hf.Empty() {\n			break\n		}\n\n		c.block.fields++\n	}\n\n	return reason", "		if len(b) == 0 && hf.Empty() {\n			break\n		}\n	}\n\n	return reason")
+	mutant("client-skip-loop-forgets-to-count", "client-block-state", "conn.go", "		if !c.dec.fieldDecoded {\n			break\n		}\n\n		c.block.fields++\n	}\n\n	return reason", "		if !c.dec.fieldDecoded {\n			break\n		}\n	}\n\n	return reason")
 	mutant("client-skip-swallows-the-reason", "client-block-state", "conn.go", "		c.block.fields++\n	}\n\n	return reason", "		c.block.fields++\n	}\n\n	return nil")
 	mutant("client-rejection-leaves-the-block-undecoded", "no-stream-error-inside-decode-loop", "conn.go", "			return c.skipFields(fr, b, errConnectionSpecific)", "			return errConnectionSpecific")
 	mutant("client-counts-after-judging", "client-block-state", "conn.go", "		c.block.fields++\n\n		// A response carries exactly one pseudo-header", "		// A response carries exactly one pseudo-header")
@@ -795,7 +795,7 @@ func init() {
 }
 
 func init() {
-	mutant("padded-data-replaces-the-flags", "flag-ops", "data.go", "		fr.SetFlags(\n			fr.Flags().Add(FlagPadded))\n		data.b = http2utils.AddPadding(data.b)", "		fr.SetFlags(FlagPadded)\n		data.b = http2utils.AddPadding(data.b)")
+	mutant("padded-data-replaces-the-flags", "flag-ops", "data.go", "		fr.SetFlags(\n			fr.Flags().Add(FlagPadded))\n		fr.payload = http2utils.AddPadding(fr.payload)", "		fr.SetFlags(FlagPadded)\n		fr.payload = http2utils.AddPadding(fr.payload)")
 	mutant("body-length-counts-the-padding", "message-consistency", "serverConn.go", "		strm.recvBody += len(data)", "		strm.recvBody += fr.Len()")
 	mutant("timed-out-stream-closed-before-its-reset", "late-frames-on-reset-streams", "serverConn.go", "				sc.resetStream(strm, StreamCanceled)\n\n				// set the state to closed in case it comes back to life later\n				strm.SetState(StreamStateClosed)\n				closeStream(strm)\n", "				// set the state to closed in case it comes back to life later\n				strm.SetState(StreamStateClosed)\n				closeStream(strm)\n\n				sc.resetStream(strm, StreamCanceled)\n")
 }
@@ -879,8 +879,8 @@ func init() {
 }
 
 func init() {
-	mutant("data-padded-without-the-flag", "serialize-essentials", "data.go", "		fr.SetFlags(\n			fr.Flags().Add(FlagPadded))\n		data.b = http2utils.AddPadding(data.b)", "		data.b = http2utils.AddPadding(data.b)")
-	mutant("data-flagged-without-padding", "serialize-essentials", "data.go", "			fr.Flags().Add(FlagPadded))\n		data.b = http2utils.AddPadding(data.b)\n", "			fr.Flags().Add(FlagPadded))\n")
+	mutant("data-padded-without-the-flag", "serialize-essentials", "data.go", "		fr.SetFlags(\n			fr.Flags().Add(FlagPadded))\n		fr.payload = http2utils.AddPadding(fr.payload)", "		fr.payload = http2utils.AddPadding(fr.payload)")
+	mutant("data-flagged-without-padding", "serialize-essentials", "data.go", "			fr.Flags().Add(FlagPadded))\n		fr.payload = http2utils.AddPadding(fr.payload)\n", "			fr.Flags().Add(FlagPadded))\n")
 }
 
 func init() {
@@ -1041,4 +1041,11 @@ func init() {
 	mutant("goaway-code-cut-to-31-bits", "small-primitives", "goaway.go", "	ga.code = code\n", "	ga.code = code & (1<<31 - 1)\n")
 	mutant("settings-on-a-stream-taken-for-a-stream-frame", "read-loop-connection-errors", "serverConn.go", "	case FrameSettings, FrameGoAway:\n", "	case FrameGoAway:\n")
 	mutant("stream-window-update-handed-to-the-request", "client-loop-shape", "conn.go", "			c.addWindow(fr.Stream(), int32(fr.Body().(*WindowUpdate).Increment()))\n\n			ReleaseFrameHeader(fr)\n\n			continue\n", "			c.addWindow(fr.Stream(), int32(fr.Body().(*WindowUpdate).Increment()))\n")
+}
+
+func init() {
+	mutant("handshake-forgets-the-low-point", "table-size-low-point", "conn.go", "			if st.has(HeaderTableSize) && st.tableSizeLow < size {\n				c.enc.SetMaxTableSize(st.tableSizeLow)\n			}\n\n", "")
+	mutant("empty-field-at-a-frame-end-taken-for-no-field", "no-phantom-field", "serverConn.go", "		if !sc.dec.fieldDecoded {\n			// The fragment ended in a dynamic table size update", "		if len(b) == 0 && hf.Empty() {\n			// The fragment ended in a dynamic table size update")
+	mutant("decoder-claims-a-field-after-a-size-update", "small-primitives", "hpack.go", "	hp.fieldDecoded = false\n\nloop:", "loop:")
+	mutant("data-padding-stored-in-the-data", "serialize-leaves-the-frame-alone", "data.go", "		fr.payload = http2utils.AddPadding(fr.payload)", "		data.b = http2utils.AddPadding(data.b)\n		fr.setPayload(data.b)")
 }
